@@ -279,7 +279,7 @@ pub fn mutate(src: &str, other: &str, rng: &mut Rng) -> (String, &'static str) {
                 toks[i] = match rng.below(4) {
                     0 => format!("{}a", toks[i]),
                     1 => "0x".to_string(),
-                    2 => format!("0x{}", "ab".repeat(200 + rng.usize(800))),
+                    2 => format!("0x{}{}", "ab".repeat(*rng.pick(&[64usize, 65, 66, 200, 1000])), if rng.bool() { "c" } else { "" }),
                     _ => format!("{}#{}", toks[i], "9".repeat(1 + rng.usize(25))),
                 };
             }
